@@ -98,9 +98,10 @@ Lemma skip_literal s : forall Y, forallb strb s = true ->
 Proof.
   induction s as [|c s IH]; intros Y H; [reflexivity|].
   cbn [forallb] in H. apply andb_true_iff in H as [Hc Hs]. unfold strb in Hc.
-  apply andb_true_iff in Hc as [Hc H3]. apply andb_true_iff in Hc as [H1 H2].
-  apply negb_true_iff in H1, H2, H3.
-  cbn [app skip_es length Nat.add]. rewrite H1, H2, H3. cbn [orb]. rewrite IH by exact Hs. reflexivity.
+  apply andb_true_iff in Hc as [H1 H2].
+  apply negb_true_iff in H1, H2.
+  cbn [app skip_es length Nat.add]. rewrite H1, H2. cbn [negb]. rewrite andb_false_r.
+  destruct (c =? state_tk_REM); cbn [orb]; rewrite IH by exact Hs; reflexivity.
 Qed.
 
 Lemma skip_str s X : forallb strb s = true ->
@@ -120,9 +121,9 @@ Proof.
   - cbn [app length]. destruct lit; reflexivity.
   - cbn [forallb] in H. apply andb_true_iff in H as [Hc Hr]. apply negb_true_iff in Hc.
     cbn [app skip_es length].
-    assert (R1 : (if c =? ch_quote then true else if c =? state_tk_REM then true
+    assert (R1 : (if c =? ch_quote then true else if (c =? state_tk_REM) && negb lit then true
                   else if c =? 0 then false else true) = true).
-    { destruct (c =? ch_quote); [reflexivity|]. destruct (c =? state_tk_REM); [reflexivity|].
+    { destruct (c =? ch_quote); [reflexivity|]. destruct ((c =? state_tk_REM) && negb lit); [reflexivity|].
       rewrite Hc. reflexivity. }
     rewrite R1, orb_true_r. rewrite IH by exact Hr. reflexivity.
 Qed.
